@@ -363,6 +363,112 @@ func (c *checker) exercise(kase string, fn schema.CallableFunction, h handlerSpe
 	}
 }
 
+// sameGoValue: identical dynamic type, identical nil-ness, equal content.
+func sameGoValue(a, b any) bool {
+	if a == nil || b == nil {
+		return a == nil && b == nil
+	}
+	va, vb := reflect.ValueOf(a), reflect.ValueOf(b)
+	if va.Type() != vb.Type() {
+		return false
+	}
+	switch va.Kind() {
+	case reflect.Slice, reflect.Map, reflect.Pointer:
+		if va.IsNil() != vb.IsNil() {
+			return false
+		}
+	}
+	return reflect.DeepEqual(a, b)
+}
+
+// echoCalls: "returns exactly what the handler returned" presupposes that the handler was given exactly what the
+// caller passed. For every native type T a handler func(T) T (and func(T, T) T returning its second parameter) that
+// records what it receives is called with every value of T's argument alphabet - the canonical value, the zero
+// value, nil and empty-but-non-nil lists and maps, and for an `any` parameter values of several dynamic types
+// including typed nils: the handler has to receive the argument itself (same dynamic type, same nil-ness, same
+// content) and the call has to return it.
+func echoCalls(res *ux.Result) {
+	c := &checker{res: res, pi: -2}
+	for _, n := range natives {
+		n := n
+		var alphabet []any
+		alphabet = append(alphabet, n.Value)
+		if n.Type != anyType {
+			alphabet = append(alphabet, reflect.Zero(n.Type).Interface())
+			switch n.Type.Kind() {
+			case reflect.Slice:
+				alphabet = append(alphabet, reflect.MakeSlice(n.Type, 0, 0).Interface())
+			case reflect.Map:
+				alphabet = append(alphabet, reflect.MakeMap(n.Type).Interface())
+			}
+		} else {
+			alphabet = append(alphabet, int64(0), "", false, 0.0, []any{}, []any(nil), []string(nil), []string{}, map[string]any(nil),
+				map[string]any{}, map[any]any(nil), []any{nil}, map[string]any{"k": nil})
+		}
+		for arity := 1; arity <= 2; arity++ {
+			var received []any
+			ins := make([]reflect.Type, arity)
+			schemas := make([]schema.Type, arity)
+			for i := range ins {
+				ins[i] = n.Type
+				schemas[i] = n.Schema()
+			}
+			ft := reflect.FuncOf(ins, []reflect.Type{n.Type}, false)
+			handler := reflect.MakeFunc(ft, func(args []reflect.Value) []reflect.Value {
+				received = received[:0]
+				for _, a := range args {
+					received = append(received, a.Interface())
+				}
+				return []reflect.Value{args[len(args)-1]}
+			}).Interface()
+			for _, dynamic := range []bool{false, true} {
+				var fn schema.CallableFunction
+				var err error
+				if dynamic {
+					fn, err = schema.NewDynamicCallableFunction("echo", schemas, nil, handler, func(inputType []schema.Type) (schema.Type, error) { return n.Schema(), nil })
+				} else {
+					fn, err = schema.NewCallableFunction("echo", schemas, n.Schema(), false, nil, handler)
+				}
+				kase := fmt.Sprintf("echo handler %s, dynamic=%v", ft, dynamic)
+				if err != nil {
+					if !dynamic {
+						c.fail("matching echo handler rejected", kase+": "+err.Error(), kase)
+					}
+					continue
+				}
+				for ai, arg := range alphabet {
+					args := []any{arg}
+					if arity == 2 {
+						args = []any{alphabet[(ai+1)%len(alphabet)], arg}
+					}
+					res.Evaluations++
+					c.guard(kase, func() {
+						received = nil
+						got, err := fn.Call(args)
+						if err != nil {
+							c.fail("correct call of an accepted function returns an error", fmt.Sprintf("%s(%s) -> %v", kase, ukit.Show(args), err), kase)
+							return
+						}
+						if len(received) != len(args) {
+							c.fail("handler not given the arguments of the call", fmt.Sprintf("%s(%s): handler received %s", kase, ukit.Show(args), ukit.Show(received)), kase)
+							return
+						}
+						for i := range args {
+							if !sameGoValue(received[i], args[i]) {
+								c.fail("handler is given another value than the caller passed", fmt.Sprintf("%s: argument %d is %#v (%T), handler received %#v (%T)", kase, i, args[i], args[i], received[i], received[i]), kase)
+								return
+							}
+						}
+						if !sameGoValue(got, arg) {
+							c.fail("call does not return what the handler returned", fmt.Sprintf("%s: handler returned %#v (%T), Call returned %#v (%T)", kase, arg, arg, got, got), kase)
+						}
+					})
+				}
+			}
+		}
+	}
+}
+
 // concurrentCalls: one function object called by two threads at once with different arguments (the engine evaluates
 // expressions of several workflow steps in parallel): under the cooperative scheduler, all schedules with at most one
 // preemption, every execution scanned for happens-before races on the function object (schema/ is built with the
@@ -440,6 +546,11 @@ func run(tier string, raw json.RawMessage, from int, deadline time.Time) ux.Resu
 	var b batch
 	_ = json.Unmarshal(raw, &b)
 	var res ux.Result
+	if b.Params == -2 {
+		echoCalls(&res)
+		res.Nontrivial = res.Evaluations
+		return res
+	}
 	if b.Params < 0 {
 		concurrentCalls(&res)
 		res.Nontrivial = res.Evaluations
@@ -555,6 +666,7 @@ func main() {
 				out = append(out, batch{i})
 			}
 			out = append(out, batch{-1}) // the concurrent part
+			out = append(out, batch{-2}) // argument fidelity
 			return out
 		},
 		Run: run,
@@ -567,7 +679,7 @@ func main() {
 			res := run("thorough", b, 0, time.Time{})
 			return res.Findings
 		},
-		Rule: "handlers built with reflect.MakeFunc for every parameter list of 0-2 parameters over 15 native types (the typed list / map schemas included; int64, string, float64, bool, []string, map[string]int64, any, map[int64]int64, []int64, []map[string]int64, []map[int64]int64, []MyStr (a list of typed enum values), MyStr) and 3 parameters over 3 types (thorough tier: over 6 types) x 14 result shapes (none, V, error, (V,error), (V,V), (V,V,error), (error,V), (V,bool), (V, int type named 'error'), (int type named 'error'), and four with a result that implements error without being the predeclared interface: (V,*T), (V,struct), (V, wider interface), (*T)) x declarations (matching inputs, every single-position mismatch, one fewer, one more; output in {nil, each of the 7}; outputsError in {false,true}) for NewCallableFunction, and the inputs for NewDynamicCallableFunction; every accepted function is called with 0..4 arguments, and once with a handler returning a non-nil error; three function objects are each called by two threads at once with different arguments (all schedules with <= 1 preemption, vector-clock race scan, results as alone)",
+		Rule: "handlers built with reflect.MakeFunc for every parameter list of 0-2 parameters over 15 native types (the typed list / map schemas included; int64, string, float64, bool, []string, map[string]int64, any, map[int64]int64, []int64, []map[string]int64, []map[int64]int64, []MyStr (a list of typed enum values), MyStr) and 3 parameters over 3 types (thorough tier: over 6 types) x 14 result shapes (none, V, error, (V,error), (V,V), (V,V,error), (error,V), (V,bool), (V, int type named 'error'), (int type named 'error'), and four with a result that implements error without being the predeclared interface: (V,*T), (V,struct), (V, wider interface), (*T)) x declarations (matching inputs, every single-position mismatch, one fewer, one more; output in {nil, each of the 7}; outputsError in {false,true}) for NewCallableFunction, and the inputs for NewDynamicCallableFunction; every accepted function is called with 0..4 arguments, and once with a handler returning a non-nil error; argument fidelity: for each of the 15 native types an echo handler of one and of two parameters (static and dynamic constructor) that records what it is given, called with the canonical value, the zero value, nil and empty lists / maps, and for an `any` parameter 14 values of different dynamic types including typed nils - the handler must receive the very arguments (dynamic type, nil-ness, content) and the call must return what the handler returned; three function objects are each called by two threads at once with different arguments (all schedules with <= 1 preemption, vector-clock race scan, results as alone)",
 		Assumptions: []string{
 			"reference predicate: parameter and result types equal the schemas' reflected types; an error result is the predeclared interface type error",
 			"interface types other than `error` that embed error are outside the alphabet",
